@@ -90,7 +90,19 @@ pub fn child<P: Pooled>(p: &P, tier: Tier, args: &[String]) -> i32 {
     let mut run_one = |idx: u64, c: &P::Case, st: &mut Stats| {
         cell.at(0).store(idx, Ordering::SeqCst);
         STARTED_MS.store(t0.elapsed().as_millis() as u64, Ordering::SeqCst);
-        let vs = p.run(c, st);
+        // properties wrap the subject in `guarded` themselves; anything that still escapes is
+        // reported (never silently lost) under its own signature
+        let vs = match guarded(|| {
+            let mut local = Stats::default();
+            let vs = p.run(c, &mut local);
+            (vs, local)
+        }) {
+            Ok((vs, local)) => {
+                st.merge(&local);
+                vs
+            }
+            Err(msg) => vec![Violation::new("uncaught-panic", format!("panic outside the guarded sections while running this case: {msg}"), p.case_json(c))],
+        };
         STARTED_MS.store(u64::MAX, Ordering::SeqCst);
         cell.at(0).store(NONE, Ordering::SeqCst);
         st.inc("cases_run");
